@@ -618,24 +618,33 @@ Proof.
   unfold fire. destruct x as [w t|t]; cbn [timer_time] in *.
   - apply emit_inv. now apply remove_waiter_inv.
   - unfold phase_timer in Hk. ss.
-    destruct (ph s) as [|rest dl fhc|c u|wk| | |] eqn:Ep; try discriminate; injection Hk as ->.
+    destruct (ph s) as [|rest dl fhc|vc vh vf vr vu|c u|wk| | |] eqn:Ep; try discriminate; injection Hk as ->.
     + (* a hanging dial round times out: next round *)
       assert (Hcur : cur (set_now t s) = None).
-      { assert (H1' := H1). dinv H1'. ss. destruct (cur s) as [c|] eqn:E; [|reflexivity].
-        destruct (Ic c eq_refl) as [_ [Hx'|[u Hx']]]; congruence. }
+      { apply inv_nocur_phase; [exact H1|]. ss. eauto 10. }
       assert (Hrun : running (set_now t s) = true) by (unfold running; ss; now rewrite Ep).
       assert (H1' := H1). dinv H1'. ss.
-      destruct (Id _ _ _ Ep) as [_ [Hlen Hincl]].
+      destruct (Id _ _ _ Ep) as [_ [Hlen [Hincl Hsec]]].
       apply rounds_inv; ss; auto.
       * constructor; ss; auto.
         -- rewrite Io. unfold cur_list. ss. now rewrite Hcur.
         -- rewrite It, Hrun. reflexivity.
       * intros h Hh s'' HC Hh' Hd' _ _ _. apply attempt_loop_inv; [exact HC|].
         pose proof (need_lt_fuel s'') as Hn. unfold fuel_of in *. ss. rewrite Hh', Hd' in Hn. exact Hn.
+    + (* the decisive pair-verify answer arrives, or the 30 s request timeout fires *)
+      assert (Hrun : running (set_now t s) = true) by (unfold running; ss; now rewrite Ep).
+      assert (H1' := H1). dinv H1'. ss.
+      destruct (Iv _ _ _ _ _ Ep) as (Hcur & Hsec & Hin & Hlen & _).
+      apply verify_done_inv; ss; auto.
+      * rewrite Io. unfold cur_list. ss. now rewrite Hcur.
+      * rewrite It, Hrun. reflexivity.
+      * intros s'' HC Hh' Hd' _ _ _. apply attempt_loop_inv; [exact HC|].
+        pose proof (need_lt_fuel s'') as Hn. unfold fuel_of in *. ss. rewrite Hh', Hd' in Hn. exact Hn.
     + (* the re-subscribe round trip completes: the connector is done *)
       assert (Hrun : running (set_now t s) = true) by (unfold running; ss; now rewrite Ep).
       assert (H1' := H1). dinv H1'. ss.
-      pose proof (Ip _ _ Ep) as Hcur. destruct (Ic _ Hcur) as [Hsec _].
+      pose proof (Ip _ _ Ep) as Hcur.
+      destruct (Ic _ Hcur) as [[Hsec _]|(h' & f' & r' & u' & Hxx)]; [|congruence].
       eapply finish_ok_connected_inv; ss; eauto.
       * rewrite Io. unfold cur_list. ss. now rewrite Hcur.
       * rewrite It, Hrun. reflexivity.
@@ -714,11 +723,87 @@ Lemma inv_failed_closed s : Inv s ->
   (ph s = PNone \/ ph s = PDoneAuth \/ ph s = PCancelled \/
    (exists w, ph s = PSleep w) \/ (exists r d f, ph s = PDial r d f)) -> opn s = [] /\ cur s = None.
 Proof.
-  intros H Hp. assert (Hc : cur s = None).
-  { assert (H' := H). dinv H'. destruct (cur s) as [c|] eqn:E; [|reflexivity].
-    destruct (Ic c eq_refl) as [_ [Hx|[u Hx]]];
-      destruct Hp as [Hp|[Hp|[Hp|[[w Hp]|[r [d [f Hp]]]]]]]; congruence. }
+  intros H Hp. assert (Hc : cur s = None) by (now apply inv_nocur_phase).
   split; [now apply inv_cur_none_open|exact Hc].
+Qed.
+
+(* while a pair-verify request is in flight its connection is the only open one, it is the current
+   one, not secure; the connector task is alive and the timer ends the wait within 30 s *)
+Lemma inv_verify_in_flight s c h f r u : Inv s -> ph s = PVerify c h f r u ->
+  opn s = [c] /\ cur s = Some c /\ secure s = false /\ connected s = false /\
+  running s = true /\ ntasks s = 1 /\ closing s = false /\ (now s <= u <= now s + THIRTY_S)%N.
+Proof.
+  intros H Hp. assert (Hr : running s = true) by (unfold running; now rewrite Hp).
+  dinv H. destruct (Iv _ _ _ _ _ Hp) as (Hc & Hs & _ & _ & Hu).
+  repeat split; auto.
+  - rewrite Io. unfold cur_list. now rewrite Hc.
+  - unfold connected. now rewrite Hc.
+  - rewrite It, Hr. reflexivity.
+  - apply Ipt. unfold phase_timer. now rewrite Hp.
+Qed.
+
+Lemma inv_verify_alive s c h f r u : Inv s -> ph s = PVerify c h f r u ->
+  running s = true /\ ntasks s = 1 /\ closing s = false /\ connected s = false /\
+  (now s <= u <= now s + THIRTY_S)%N.
+Proof.
+  intros H Hp. destruct (inv_verify_in_flight _ _ _ _ _ _ H Hp) as (_ & _ & _ & H4 & H5 & H6 & H7 & H8).
+  repeat split; auto; apply H8.
+Qed.
+
+Lemma inv_verify_open s c h f r u : Inv s -> ph s = PVerify c h f r u ->
+  opn s = [c] /\ cur s = Some c /\ secure s = false /\ connected s = false.
+Proof.
+  intros H Hp. destruct (inv_verify_in_flight _ _ _ _ _ _ H Hp) as (H1 & H2 & H3 & H4 & _). auto.
+Qed.
+
+(* the timer of an in-flight pair-verify: a request that is never answered in time (r = None), an
+   answer of class "other" or an authentication error all close the connection; the first two are
+   followed by the back-off sleep (0.75 s .. 60 s), so a silent accessory cannot stall the connector *)
+Lemma verify_failed_closed s c h f r u : Inv s -> ph s = PVerify c h f r u ->
+  match r with
+  | None => True
+  | Some (k, _) => vclass_of k = KOther
+  end ->
+  let s' := fire (TPhase u) s in
+  opn s' = [] /\ cur s' = None /\ ntasks s' = 1 /\ excl s' = [] /\
+  exists w, ph s' = PSleep w /\ (u + 3072 <= w <= u + SIXTY_S)%N.
+Proof.
+  intros H Hp Hr. cbv zeta.
+  destruct (inv_verify_in_flight _ _ _ _ _ _ H Hp) as (Ho & Hc & _ & _ & _ & Ht & _ & _).
+  assert (E : fire (TPhase u) s = fail_other (set_now u s)).
+  { unfold fire. cbn [timer_time]. ss. rewrite Hp. unfold verify_done.
+    destruct r as [[k d]|]; [|reflexivity]. now rewrite Hr. }
+  rewrite E. unfold fail_other, drop_transport, backoff. ss. rewrite Hc, Ho. cbn [mem_nat]. rewrite Nat.eqb_refl. ss.
+  rewrite remove_nat_single. repeat split; auto.
+  eexists. split; [reflexivity|]. pose proof (sleep_ticks_bounds (S (nfail s))). lia.
+Qed.
+
+Lemma verify_auth_closed s c h f d u k : Inv s -> ph s = PVerify c h f (Some (k, d)) u -> vclass_of k = KAuth ->
+  let s' := fire (TPhase u) s in
+  opn s' = [] /\ cur s' = None /\ ntasks s' = 0 /\ ph s' = PDoneAuth /\ waiters s' = [].
+Proof.
+  intros H Hp Hk. cbv zeta.
+  destruct (inv_verify_in_flight _ _ _ _ _ _ H Hp) as (Ho & Hc & _ & _ & _ & Ht & _ & _).
+  unfold fire. cbn [timer_time]. ss. rewrite Hp. unfold verify_done. rewrite Hk.
+  unfold drop_transport, finish, resolve_waiters. ss. rewrite Hc, Ho. cbn [mem_nat]. rewrite Nat.eqb_refl. ss.
+  rewrite remove_nat_single, Ht. repeat split; reflexivity.
+Qed.
+
+(* a wrong-pairing-id answer: the connection is closed BEFORE the connector moves on - to the next
+   address without back-off (cont) or to the back-off sleep *)
+Lemma verify_wrongid_closed cont s c h f d k :
+  cur s = Some c -> opn s = [c] -> vclass_of k = KWrong ->
+  exists s1, opn s1 = [] /\ cur s1 = None /\
+    (verify_done cont f h c (Some (k, d)) s = cont (set_imm (S (imm s1)) s1) \/
+     verify_done cont f h c (Some (k, d)) s = backoff s1).
+Proof.
+  intros Hc Ho Hk. unfold verify_done. rewrite Hk.
+  set (s1 := drop_transport (set_excl (if mem_nat h (excl s) then excl s else excl s ++ [h]) s)).
+  exists s1. assert (E : opn s1 = [] /\ cur s1 = None).
+  { unfold s1, drop_transport. ss. rewrite Hc, Ho. cbn [mem_nat]. rewrite Nat.eqb_refl. ss.
+    rewrite remove_nat_single. split; reflexivity. }
+  destruct E as [E1 E2]. split; [exact E1|]. split; [exact E2|].
+  destruct ((f <? length (excl s1)) && negb (subset_nat (hosts s1) (excl s1))); [left|right]; reflexivity.
 Qed.
 
 Lemma inv_one_connector s : Inv s -> ntasks s <= 1.
